@@ -35,6 +35,19 @@ def harvest(repo="/repo", out_path=None):
                 continue
             if v <= 2**32:
                 ints.add(v)
+        # constants written as expressions: a << b, a.pow(b) / pow(a, b), a * b of two literals
+        for m in re.finditer(r"(?<![\w.])(\d+)\s*<<\s*(\d+)(?![\w.])", text):
+            a, b = int(m.group(1)), int(m.group(2))
+            if b < 40 and (a << b) <= 2**32:
+                ints.add(a << b)
+        for m in re.finditer(r"(?<![\w.])(\d+)(?:_?[iu](?:8|16|32|64|size))?\.pow\((\d+)\)", text):
+            a, b = int(m.group(1)), int(m.group(2))
+            if b < 40 and a ** b <= 2**32:
+                ints.add(a ** b)
+        for m in re.finditer(r"(?<![\w.])(\d+)\s*\*\s*(\d+)(?![\w.])", text):
+            a, b = int(m.group(1)), int(m.group(2))
+            if a * b <= 2**32:
+                ints.add(a * b)
         for m in STR.finditer(text):
             s = m.group(1)
             if not re.search(r"\s", s) and "{" not in s:
